@@ -112,6 +112,7 @@ def run_mode(fl, E, rows, parts, mode, expected, ref=None, record=None):
     fvs = []
     for n in parts:
         batch = rows[k:k + n]
+        kept = []
         try:
             if mode == "float":
                 for iv, x in zip(e.input_variables, batch[0]):
@@ -119,15 +120,27 @@ def run_mode(fl, E, rows, parts, mode, expected, ref=None, record=None):
             elif mode == "arrays":
                 for j, iv in enumerate(e.input_variables):
                     new = np.array([to_float(r[j]) for r in batch])
+                    if (k + j) % 3 == 1:
+                        new.setflags(write=False)           # the caller's array may be read-only ...
+                    elif (k + j) % 3 == 2 and all(math.isfinite(v) and float(v).is_integer() for v in new):
+                        new = new.astype(int)               # ... or hold its (integral) values as integers
+                    kept.append((new, np.array(new, copy=True)))
                     cur = iv.value
-                    if isinstance(cur, np.ndarray) and cur.shape == new.shape and cur.flags.writeable and k % 2:
+                    if isinstance(cur, np.ndarray) and cur.shape == new.shape and cur.flags.writeable and cur.dtype == float and k % 2:
                         cur[...] = new          # the caller keeps one buffer per input and updates it in place between two process() calls
                         iv.value = cur
                     else:
                         iv.value = new
             else:
-                e.input_values = np.array([[to_float(x) for x in r] for r in batch])
+                mat = np.array([[to_float(x) for x in r] for r in batch])
+                if k % 2:
+                    mat.setflags(write=False)
+                kept.append((mat, np.array(mat, copy=True)))
+                e.input_values = mat
             e.process()
+            for mine, before in kept:
+                if not np.array_equal(mine, before, equal_nan=True):
+                    return f"rows {k}..{k + n - 1}: the array the caller assigned to an input variable was modified ({before.tolist()} -> {mine.tolist()})", None, fvs
             ov = np.asarray(e.output_values, dtype=float)
             if ov.shape != (n, len(e.output_variables)):
                 return f"rows {k}..{k + n - 1}: output_values has shape {ov.shape}, expected {(n, len(e.output_variables))}", None, fvs
